@@ -33,6 +33,7 @@ OpsEm == {"EmNew", "EmAppend", "EmExtend", "EmCopy", "EmSlice", "EmIndex", "EmAd
           "EmRemoveOv", "EmLink", "ArrWrite", "Mutate", "EmMerge"}
 OpsTc == {"EmNew", "EmIndex", "EmRemoveSmall", "Mutate", "TcNew", "TcAppend", "TcSlice", "TcCopy", "TcIndex", "TcClear"}
 OpsTr == {"Mutate", "TrkNew", "TrkAppend", "TrkSlice", "TrkCopy", "TrkIndex"}
+OpsIo == {"EmNew", "EmAppend", "EmRemoveSmall", "Mutate", "EmSave", "EmLoad", "TcNew", "TcAppend", "TcSave", "TcLoad", "TrkNew", "TrkSave", "TrkLoad"}
 OpsTl == {"TrkNew", "TrkAppend", "TrkSlice", "TlNew", "TlSlice", "TlRemoveShort"}
 TlListsA == {<<>>, <<1>>, <<1, 2>>, <<2, 1, 2>>}
 MinDursA == {Neg1, 0, 2}
